@@ -28,6 +28,16 @@ func init() {
 			}, analyzeAssume...),
 		})
 	}
+	reg(&PropDef{
+		ID: "C20", Level: "proof", FactsOK: true,
+		LeanModules: []string{"Verif.Properties.C20"},
+		Streams:     []func(*Ctx) StreamResult{classifyStream.Run},
+		Assumptions: []string{
+			"spec.ExpandSchema is modelled lazily (resolve on demand + reachability check for dangling $refs); the equivalence with the library's eager expansion is validated by the classify stream, not proved",
+			"the strfmt registry and the decoding of $ref strings are external functions whose values are shipped with each case",
+			"$ref targets are definitions of the root document",
+		},
+	})
 	mixinAssume := []string{
 		"documents are those go-openapi/spec loads, in serialization normal form (absent == zero value)",
 		"operation ids are unique within each document and none has the form <id>Mixin<N> of another (hypotheses of C18; the generator guarantees them)",
